@@ -51,6 +51,11 @@ type qCfg struct {
 	Migrator    bool `json:"migrator"`
 	Serial      bool `json:"serial"` // every burst has one op (strict sequential history)
 	Guarantee   bool `json:"guarantee"` // feature gate ElasticQuotaGuaranteeUsage (no quota lends; guaranteed = max(allocated, min))
+	// C19 only (quota_c19_verif_test.go): weights of the driver's choice between delivering a pending informer
+	// event, the next API operation / scheduling attempt, and a pending bind
+	WDel  int `json:"w_deliver,omitempty"`
+	WOp   int `json:"w_op,omitempty"`
+	WBind int `json:"w_bind,omitempty"`
 }
 
 type qOp struct {
@@ -462,6 +467,18 @@ func (quotaEngine) Generate(p *sim.Plan, g *sim.Rng) {
 		cfg.Runtime = true
 	}
 	cfg.Guarantee = g.Bool(0.2)
+	if p.Prop == "C19" {
+		switch g.Intn(4) {
+		case 0: // prompt delivery
+			cfg.WDel, cfg.WOp, cfg.WBind = 12, 1, 4
+		case 1: // informers lag
+			cfg.WDel, cfg.WOp, cfg.WBind = 1, 4, 3
+		case 2: // binding is slow
+			cfg.WDel, cfg.WOp, cfg.WBind = 6, 6, 1
+		default:
+			cfg.WDel, cfg.WOp, cfg.WBind = 3, 3, 3
+		}
+	}
 	big := g.Bool(0.2)
 	nOps := g.Range(8, 45)
 	if p.Tier == "thorough" {
@@ -811,6 +828,8 @@ type qSim struct {
 	foreign, everScheduled map[string]bool
 	apiDone   bool
 	attempts  int
+	c19Echo   map[any]bool // C19 mode: new-object pointers of the pod updates that echo a bind of this scheduler
+	c19StaleEcho map[any]bool
 }
 
 func newPlugin(cfg qCfg) *Plugin {
@@ -1051,6 +1070,10 @@ func (quotaEngine) Execute(r *sim.Run) {
 	}()
 	s.pl = newPlugin(s.cfg)
 	r.Sample("cfg %+v", s.cfg)
+	if r.Prop == "C19" {
+		s.executeC19(ops)
+		return
+	}
 
 	// split into bursts at barriers
 	var bursts [][]qOp
